@@ -25,6 +25,10 @@ type c10Case struct {
 	Sites    []string `json:"sites,omitempty"` // grammatical position class of each comment, in order
 	// FileMode: also check both laws through `format -f` on files (through the built CLI)
 	FileMode bool `json:"file_mode,omitempty"`
+	// StrA, StrB: two layouts of one comment-free token sequence (StrB on a single line) for the
+	// same laws through `format -d`, where the text travels as a command-line argument
+	StrA string `json:"str_a,omitempty"`
+	StrB string `json:"str_b,omitempty"`
 }
 
 // commentScope qualifies comment-related classes: failures caused by comments at positions an
@@ -181,12 +185,12 @@ func TestC10(t *testing.T) {
 			_ = json.Unmarshal(raw, &k)
 			replayHistory(p, evalC10)
 			c.Eval()
-			c.Report(pbt.DirectTB(t), k, evalC10(k))
+			c.Report(pbt.DirectTB(t), k, append(evalC10(k), evalC10Str(k)...))
 		})
 		return
 	}
 	avoid := synAvoidFor(c)
-	c.SetRecheck(func(k any) []pbt.Violation { return evalC10(k.(c10Case)) })
+	c.SetRecheck(func(k any) []pbt.Violation { return append(evalC10(k.(c10Case)), evalC10Str(k.(c10Case))...) })
 	c.SetPure()
 	c.ReplayKnown(t, func(raw json.RawMessage) []pbt.Violation {
 		var k c10Case
@@ -202,6 +206,31 @@ func TestC10(t *testing.T) {
 		if rapid.IntRange(0, 15).Draw(rt, "file_mode") == 0 && !strings.Contains(tc.Text, "\x00") {
 			k.FileMode = true
 			c.Class("file-mode-through-cli")
+		}
+		if rapid.IntRange(0, 11).Draw(rt, "string_mode") == 0 && !strings.Contains(tc.Text, "\x00") && len(tc.Toks) > 0 {
+			// the same tokens without comments, once laid out freely and once on a single line,
+			// with backslash sequences in a doc string, as `format -d` arguments
+			toks := make([]dsl.Tok, len(tc.Toks))
+			copy(toks, tc.Toks)
+			ok := true
+			for i := range toks {
+				toks[i].Pre, toks[i].Trail, toks[i].HasTr = nil, "", false
+				if strings.Contains(toks[i].Text, "\n") {
+					ok = false
+				}
+				if strings.HasPrefix(toks[i].Text, "`") && len(toks[i].Text) >= 2 {
+					toks[i].Text = toks[i].Text[:len(toks[i].Text)-1] + rapid.SampledFrom([]string{"", ` D:\new\table`, ` \n`, ` a\tb`}).Draw(rt, fmt.Sprintf("bs%d", i)) + "`"
+				}
+			}
+			if ok && !strings.HasPrefix(toks[0].Text, "-") {
+				k.StrA, _ = dsl.Layout(toks, dsl.RandLayout{T: rt, Label: "strlay"})
+				k.StrB, _ = dsl.Layout(toks, oneLine{})
+				if strings.TrimSpace(k.StrA) != "" {
+					c.Class("string-mode-through-cli")
+				} else {
+					k.StrA, k.StrB = "", ""
+				}
+			}
 		}
 		c.Eval()
 		c.Class("origin:" + tc.Origin)
@@ -221,7 +250,7 @@ func TestC10(t *testing.T) {
 		if nontrivial {
 			c.NonTrivial(pbt.Hash(k.Text, k.Relayout), func() any { return map[string]any{"text": clip(k.Text, 600), "relayout": clip(k.Relayout, 600)} })
 		}
-		c.Report(rt, k, evalC10(k))
+		c.Report(rt, k, append(evalC10(k), evalC10Str(k)...))
 	})
 }
 
@@ -642,4 +671,44 @@ func TestC09(t *testing.T) {
 		}
 		run(rt, k)
 	})
+}
+
+// oneLine puts every token on one line.
+type oneLine struct{}
+
+func (oneLine) Gap(i int, t dsl.Tok, must bool) string {
+	if i == 0 {
+		return ""
+	}
+	return " "
+}
+
+// evalC10Str: both laws through `format -d`.
+func evalC10Str(k c10Case) []pbt.Violation {
+	if k.StrA == "" || cli.Bin() == "" {
+		return nil
+	}
+	if _, err, pm, _ := inproc.Format(k.StrA); err != nil || pm != "" {
+		return nil
+	}
+	viaArg := func(text string) (string, bool) {
+		dir := cli.Scratch("c10d")
+		defer os.RemoveAll(dir)
+		r := cli.Run(dir, 60*time.Second, nil, nil, cli.Bin(), "format", "-d", text)
+		return strings.TrimSuffix(string(r.Stdout), "\n"), r.Exit == 0
+	}
+	a, okA := viaArg(k.StrA)
+	b, okB := viaArg(k.StrB)
+	switch {
+	case !okA || !okB:
+		return []pbt.Violation{{External: true, Signature: "string-mode-fails-on-valid", Detail: fmt.Sprintf("`format -d` exits non-zero on a text the formatter accepts (several lines: ok=%v, one line: ok=%v): %q", okA, okB, clip(k.StrB, 200))}}
+	case a != b:
+		return []pbt.Violation{{External: true, Signature: "string-mode-layout-dependent", Detail: "`format -d` of the same tokens on one line differs: " + firstLineDiff(a, b)}}
+	}
+	if strings.TrimSpace(a) != "" {
+		if aa, ok := viaArg(a); !ok || aa != a {
+			return []pbt.Violation{{External: true, Signature: "string-mode-not-idempotent", Detail: "`format -d` twice != once: " + firstLineDiff(a, aa)}}
+		}
+	}
+	return nil
 }
